@@ -13,8 +13,8 @@ use serde_json::json;
 use std::collections::{BTreeMap, BTreeSet};
 use std::time::Instant;
 
-const DIRS: &[&str] = &["", "", "pkg", "pkg/deep", "lib v2", "lib [v2]", "Ünï", "a.b", "pkg/deep/er"];
-const BASES: &[&str] = &["alpha", "beta", "my file", "v1.2", "Ünï", "UPPER", "9lives", "x-y", "m_1", "zed", "__init__", "a+b"];
+const DIRS: &[&str] = &["", "", "", "pkg", "pkg/deep", "lib v2", "lib [v2]", "Ünï", "a.b", "pkg/deep/er", "target", "build", "tests", "src", ".cfg", "_gen", "srcx"];
+const BASES: &[&str] = &["alpha", "beta", "my file", "v1.2", "Ünï", "UPPER", "9lives", "x-y", "m_1", "zed", "__init__", "a+b", ".hidden", "_private", "a b c", "très", "target", "src", "x.mamba.bak"];
 const ROOTS: &[&str] = &["proj", "proj", "my proj", "prøj", "p.r.o.j", "P1"];
 const ROOTS_GLOB: &[&str] = &["pq [x]", "a*b", "q?z", "br{a,b}"];
 
@@ -88,7 +88,19 @@ fn gen_project(rng: &mut Rng, fenced: &BTreeSet<String>, builtins: &BTreeSet<Str
                     g.out = format!("def {prefix}only := 1\n");
                 }
             }
-            files.push(SrcFile { path: p.clone(), text: g.out.clone() });
+            // the form of the text on disk: mostly as generated; sometimes without the final
+            // newline, with CRLF line endings, with a leading comment and blank lines, with
+            // non-ASCII text in a string literal, or empty
+            let mut text = g.out.clone();
+            match g.rng.below(14) {
+                0 => text = text.trim_end_matches('\n').to_string(),
+                1 => text = text.replace('\n', "\r\n"),
+                2 => text = format!("# généré — {}\n\n\n{}", p, text),
+                3 => text.push_str(&format!("def {prefix}uni := \"naïve — 日本語 ✓\"\n")),
+                4 if i > 0 => text = String::new(),
+                _ => {}
+            }
+            files.push(SrcFile { path: p.clone(), text });
             let xf = g.cross_fault_line(&prefix);
             xfaults.push(xf);
         }
@@ -311,16 +323,75 @@ fn visibility_relation(rng: &mut Rng, fenced: &BTreeSet<String>) -> Option<Rel> 
         let body = g.out.clone();
         let vis: BTreeSet<usize> = [0usize].into_iter().collect();
         g.visible_files = vis;
-        let (use_line, k_block, without) = if use_fun {
-            let fname = g.funs[fi].name.clone();
-            let l = g.call_line(fi);
-            let (b, w) = def_block(&lib_text, &format!("def {fname}"));
-            (l, b, w)
-        } else {
-            let kname = g.classes[ci].name.clone();
-            let l = g.use_line(ci);
-            let (b, w) = class_block(&lib_text, &kname);
-            (l, b, w)
+        let mut kind = if use_fun { 1 } else { [0u64, 0, 2, 3, 4, 5, 6][g.rng.below(7) as usize] };
+        if kind == 4 && fenced.contains("cross_file_variable") {
+            kind = 0;
+        }
+        let mut lib_text = lib_text;
+        let (use_line, k_block, without) = match kind {
+            1 => {
+                let fname = g.funs[fi].name.clone();
+                let l = g.call_line(fi);
+                let (b, w) = def_block(&lib_text, &format!("def {fname}"));
+                (l, b, w)
+            }
+            2 | 3 => {
+                // the class as a parent of a class of the other file (2), or a member of an
+                // instance accessed in the other file (3)
+                let c = g.classes[ci].clone();
+                let kname = c.name.clone();
+                let (b, w) = class_block(&lib_text, &kname);
+                let member = c.fields.first().map(|(f, _)| format!(".{f}")).or_else(|| c.methods.iter().find(|m| m.params.is_empty()).map(|m| format!(".{}()", m.name)));
+                if kind == 2 {
+                    if !c.args.is_empty() {
+                        continue;
+                    }
+                    let mut l = format!("class UaChild9: {kname}\n    def uaf9: Int := 1\n\ndef uause9 := UaChild9()\n");
+                    if let Some(m) = &member {
+                        l.push_str(&format!("def uaacc9 := uause9{m}\n"));
+                    }
+                    (l, b, w)
+                } else {
+                    let m = match member {
+                        Some(m) => m,
+                        None => continue,
+                    };
+                    let ctor = g.use_line(ci);
+                    let var = ctor.split_whitespace().nth(1).unwrap_or("x").to_string();
+                    (format!("{ctor}def uaacc9 := {var}{m}\n"), b, w)
+                }
+            }
+            4 => {
+                // a top-level constant of the other file
+                let line = "def fin laconst9 := 7\n".to_string();
+                let without = lib_text.clone();
+                lib_text.push_str(&line);
+                ("def uause9: Int := laconst9 + 1\n".to_string(), line, without)
+            }
+            5 => {
+                // an exception class of the other file, raised and handled here
+                let line = "class LaErr9(msg: Str): Exception(msg)\n".to_string();
+                let without = lib_text.clone();
+                lib_text.push_str(&line);
+                (
+                    "def uaraise9(x: Int) -> Int raise [LaErr9] =>\n    if x < 0 then\n        raise LaErr9(\"m\")\n    else\n        return 1\n\ndef uah9 := uaraise9(3) handle\n    err: LaErr9 => 0\n".to_string(),
+                    line,
+                    without,
+                )
+            }
+            6 => {
+                // an interface of the other file as a parameter type
+                let block = "type LaIface9\n    def lam9(self) -> Int\n\n".to_string();
+                let without = lib_text.clone();
+                lib_text.push_str(&block);
+                ("def uaf9(p: LaIface9) -> Int => p.lam9()\n".to_string(), block, without)
+            }
+            _ => {
+                let kname = g.classes[ci].name.clone();
+                let l = g.use_line(ci);
+                let (b, w) = class_block(&lib_text, &kname);
+                (l, b, w)
+            }
         };
         if k_block.is_empty() {
             continue;
@@ -372,6 +443,31 @@ pub fn gen_and_run(seed: u64, index: u64, scratch: &str, cfg: &GenCfg, fenced: &
         // source directory = project directory: the output directory then lies inside the source tree
         layout.target = Some("out".into());
     }
+    // how the arguments are written
+    if rng.chance(1, 4) {
+        layout.src_form = rng.pick(&["abs", "slash", "dotdot"]).to_string();
+        if layout.src.as_deref() == Some(".") {
+            layout.src_form = String::new();
+        }
+    }
+    if rng.chance(1, 4) {
+        layout.target_form = rng.pick(&["abs", "slash", "dotdot"]).to_string();
+    }
+    // files elsewhere in the project directory that must be ignored
+    let mut outside: Vec<SrcFile> = vec![];
+    if layout.src.as_deref() != Some(".") {
+        let sname = layout.src.clone().unwrap_or_else(|| "src".into());
+        for (p, t) in [
+            (format!("{sname}2/ignored.mamba"), "def ignored := 1\n"),
+            (format!("{sname}.mamba"), "def alsoignored := $\n"),
+            ("docs/readme.md".to_string(), "docs\n"),
+            ("x{sname}/deep/other.mamba".replace("{sname}", &sname), "class\n"),
+        ] {
+            if rng.chance(1, 3) {
+                outside.push(SrcFile { path: p, text: t.to_string() });
+            }
+        }
+    }
     let mut sc = C13Scenario {
         property: "C13".into(),
         seed,
@@ -401,7 +497,7 @@ pub fn gen_and_run(seed: u64, index: u64, scratch: &str, cfg: &GenCfg, fenced: &
 
     let mut cur_files = files.clone();
     let mut cur_by = bystanders.clone();
-    let v0 = push(&mut sc, &mut h, Op::Project { files: cur_files.clone(), bystanders: cur_by.clone(), faulty: None, note: "initial".into() });
+    let v0 = push(&mut sc, &mut h, Op::Project { files: cur_files.clone(), bystanders: cur_by.clone(), outside: outside.clone(), faulty: None, note: "initial".into() });
     // order relation on the initial version
     if cur_files.len() >= 2 {
         let perms = if (cfg.all_perms && cur_files.len() <= 4) || cur_files.len() <= 3 {
@@ -472,11 +568,11 @@ pub fn gen_and_run(seed: u64, index: u64, scratch: &str, cfg: &GenCfg, fenced: &
                 fv[k].text = format!("{}{}", fv[k].text, line);
                 faulty = Some(Faulty { path: fv[k].path.clone(), line: line.clone() });
                 note = format!("make_faulty:{kind}:{}", fv[k].path);
-                push(&mut sc, &mut h, Op::Project { files: fv, bystanders: cur_by.clone(), faulty: faulty.clone(), note });
+                push(&mut sc, &mut h, Op::Project { files: fv, bystanders: cur_by.clone(), outside: vec![], faulty: faulty.clone(), note });
                 let t = transpile(&mut rng, &h, cfg.cli_permille);
                 push(&mut sc, &mut h, t);
                 // repair
-                let rv = push(&mut sc, &mut h, Op::Project { files: cur_files.clone(), bystanders: cur_by.clone(), faulty: None, note: "repair".into() });
+                let rv = push(&mut sc, &mut h, Op::Project { files: cur_files.clone(), bystanders: cur_by.clone(), outside: vec![], faulty: None, note: "repair".into() });
                 last_valid_version = rv;
                 let t = transpile(&mut rng, &h, cfg.cli_permille);
                 push(&mut sc, &mut h, t);
@@ -514,7 +610,7 @@ pub fn gen_and_run(seed: u64, index: u64, scratch: &str, cfg: &GenCfg, fenced: &
                 }
                 cur_files.push(SrcFile { path, text });
                 note = "add_unrelated".to_string();
-                let ev = push(&mut sc, &mut h, Op::Project { files: cur_files.clone(), bystanders: cur_by.clone(), faulty: None, note });
+                let ev = push(&mut sc, &mut h, Op::Project { files: cur_files.clone(), bystanders: cur_by.clone(), outside: vec![], faulty: None, note });
                 sc.relations.push(Rel::Interference { base_op: last_valid_version, ext_op: ev });
                 last_valid_version = ev;
             }
@@ -532,7 +628,7 @@ pub fn gen_and_run(seed: u64, index: u64, scratch: &str, cfg: &GenCfg, fenced: &
                     continue;
                 }
                 note = "rename_order".to_string();
-                let rv = push(&mut sc, &mut h, Op::Project { files: fv.clone(), bystanders: cur_by.clone(), faulty: None, note });
+                let rv = push(&mut sc, &mut h, Op::Project { files: fv.clone(), bystanders: cur_by.clone(), outside: vec![], faulty: None, note });
                 sc.relations.push(Rel::SameTexts { op_a: last_valid_version, op_b: rv });
                 cur_files = fv;
                 last_valid_version = rv;
@@ -545,7 +641,7 @@ pub fn gen_and_run(seed: u64, index: u64, scratch: &str, cfg: &GenCfg, fenced: &
                     }
                 }
                 note = "shrink_last".to_string();
-                let rv = push(&mut sc, &mut h, Op::Project { files: cur_files.clone(), bystanders: cur_by.clone(), faulty: None, note });
+                let rv = push(&mut sc, &mut h, Op::Project { files: cur_files.clone(), bystanders: cur_by.clone(), outside: vec![], faulty: None, note });
                 last_valid_version = rv;
             }
             6 => {
@@ -554,14 +650,14 @@ pub fn gen_and_run(seed: u64, index: u64, scratch: &str, cfg: &GenCfg, fenced: &
                     cur_files.pop();
                 }
                 note = "delete_last".to_string();
-                let rv = push(&mut sc, &mut h, Op::Project { files: cur_files.clone(), bystanders: cur_by.clone(), faulty: None, note });
+                let rv = push(&mut sc, &mut h, Op::Project { files: cur_files.clone(), bystanders: cur_by.clone(), outside: vec![], faulty: None, note });
                 last_valid_version = rv;
             }
             _ => {
                 // only bystanders change; plain repeated run into the populated directory
                 if rng.chance(1, 2) {
                     cur_by.push(SrcFile { path: format!("{tag}.txt"), text: "bystander\n".into() });
-                    push(&mut sc, &mut h, Op::Project { files: cur_files.clone(), bystanders: cur_by.clone(), faulty: None, note: "bystander".into() });
+                    push(&mut sc, &mut h, Op::Project { files: cur_files.clone(), bystanders: cur_by.clone(), outside: vec![], faulty: None, note: "bystander".into() });
                 }
             }
         }
@@ -597,7 +693,7 @@ pub fn enumerate_faults(seed: u64, index: u64, scratch: &str, fenced: &BTreeSet<
         root_name: "proj".into(),
         layout: Layout::default(),
         annotate: rng.chance(1, 2),
-        history: vec![Op::Project { files: files.clone(), bystanders, faulty: None, note: "enumeration".into() }],
+        history: vec![Op::Project { files: files.clone(), bystanders, outside: vec![], faulty: None, note: "enumeration".into() }],
         relations: vec![],
         expect: None,
     };
